@@ -930,6 +930,16 @@ class Interp:
                         s3.env[dk] = replace(recv, val=(tuple(sorted(sl.items(), key=lambda kv: str(kv[0]))), recv.val[1]))
                         out.append((s3, const(None)))
                         continue
+                    if f.attr == "update" and len(pos) == 1 and "*" not in kw and "**" not in kw and not (pos[0].kind == "dict" and not pos[0].val[1]):
+                        # d.update(<a mapping the interpreter does not know>): every known slot may have been overridden by it
+                        # (the slot keeps its own provenance and gains the argument's), further keys may exist
+                        arg = pos[0]
+                        sl = {k_: AV("unk", tags=frozenset(set(v_.tags) | set(arg.tags) | {"maybe-overridden"})) for k_, v_ in dslots(recv).items()}
+                        sl.update(kw)
+                        s3 = s2.copy()
+                        s3.env[dk] = replace(recv, val=(tuple(sorted(sl.items(), key=lambda kv: str(kv[0]))), True), tags=frozenset(set(recv.tags) | set(arg.tags)))
+                        out.append((s3, const(None)))
+                        continue
                     if f.attr == "setdefault" and len(pos) == 2 and not kw and pos[0].kind == "const":
                         # d.setdefault(k, v) is `if k not in d: d[k] = v` followed by d[k]
                         key, sl = pos[0].val, dslots(recv)
